@@ -387,6 +387,7 @@ func TypeIntersection(t1, t2 Type) *Type {
 
 	var outputType *Type
 	for _, t := range leftPossibleTypes {
+		t := t // outputType may keep the address of t: it must not alias the loop variable
 		if t.Is(t2) == TypeRelationIs {
 			if outputType == nil {
 				outputType = &t
@@ -396,6 +397,7 @@ func TypeIntersection(t1, t2 Type) *Type {
 		}
 	}
 	for _, t := range rightPossibleTypes {
+		t := t
 		if t.Is(t1) == TypeRelationIs {
 			if outputType == nil {
 				outputType = &t
